@@ -509,7 +509,10 @@ pub fn examples(th: bool) -> Vec<Example> {
     {
         // T periods, ni items, demand[i][t] in {0,1} (not all zero), change-over cost matrix off-diagonal in {0,1,2}, stocking in {0,1}
         let scopes: Vec<(usize, usize)> = if th { vec![(2, 1), (3, 1), (2, 2), (3, 2), (4, 2)] } else { vec![(2, 1), (3, 1), (2, 2), (3, 2)] };
-        let sizes: Vec<u64> = scopes.iter().map(|(t, ni)| (1u64 << (t * ni)) * 3u64.pow((ni * (ni - 1)) as u32) * (1u64 << ni)).collect();
+        let mut sizes: Vec<u64> = scopes.iter().map(|(t, ni)| (1u64 << (t * ni)) * 3u64.pow((ni * (ni - 1)) as u32) * (1u64 << ni)).collect();
+        // thorough: the smallest shape on which D17 shows: 6 periods, 3 items with ONE demand each (every deadline), change-over costs in
+        // {0,1} (non triangular matrices included), no stocking cost
+        if th { sizes.push(216 * 64); }
         let count = sizes.iter().sum();
         let sc = scopes.clone();
         // D17 (known finding, see DESIGN section 4): PspRelax::merge keeps the component-wise minimum of the pending demands, i.e. drops
@@ -518,16 +521,24 @@ pub fn examples(th: bool) -> Vec<Example> {
         // by an independent random search: 6 periods / 3 items (wrong with -w 1) and 7 periods / 4 items (wrong with the default width)
         let d17a = Case { text: "6\n3\n3\n\n0 0 1\n0 0 0\n1 1 0\n\n0 0 0\n\n0 0 1 0 0 0\n0 0 0 0 1 0\n0 0 0 1 0 0\n\n0\n".to_string(), expect: Expect::Value(0.0), descr: "D17 instance: 6 periods, 3 items, change-over [[0,0,1],[0,0,0],[1,1,0]], optimum 0".to_string() };
         let d17b = Case { text: "7\n4\n6\n\n0 0 0 1\n55 0 1 55\n0 1 0 0\n52 52 0 0\n\n0 0 0 3\n\n0 0 0 0 0 1 1\n0 0 0 1 0 0 1\n1 0 0 0 0 0 0\n0 0 0 0 0 0 1\n\n55\n".to_string(), expect: Expect::Value(55.0), descr: "D17 instance: 7 periods, 4 items, optimum 55".to_string() };
-        ex.push(Example { name: "psp", scope: format!("(periods, items) in {:?}: all 0/1 demand matrices, change-over costs in {{0,1,2}}, stocking costs in {{0,1}}", scopes), count, file_flag: None, tsptw_output: false, extra: vec![d17a, d17b],
+        ex.push(Example { name: "psp", scope: format!("(periods, items) in {:?}: all 0/1 demand matrices, change-over costs in {{0,1,2}}, stocking costs in {{0,1}}{}; 2 hand-written instances (D17)", scopes, if th { "; 6 periods x 3 items with one demand each, change-over costs in {0,1}, no stocking cost" } else { "" }), count, file_flag: None, tsptw_output: false, extra: vec![d17a, d17b],
             arg_sets: argsets(&w4, &[None], "-w", "-t"),
             gen: Box::new(move |mut idx| {
                 let mut k = 0;
                 while idx >= sizes[k] { idx -= sizes[k]; k += 1; }
-                let (t, ni) = sc[k];
-                let dem: Vec<Vec<u64>> = (0..ni).map(|_| (0..t).map(|_| digit(&mut idx, 2)).collect()).collect();
-                let mut co = vec![vec![0i64; ni]; ni];
-                for a in 0..ni { for b in 0..ni { if a != b { co[a][b] = digit(&mut idx, 3) as i64; } } }
-                let st: Vec<i64> = (0..ni).map(|_| digit(&mut idx, 2) as i64).collect();
+                let (t, ni) = if k < sc.len() { sc[k] } else { (6, 3) };
+                let (dem, co, st): (Vec<Vec<u64>>, Vec<Vec<i64>>, Vec<i64>) = if k < sc.len() {
+                    let dem: Vec<Vec<u64>> = (0..ni).map(|_| (0..t).map(|_| digit(&mut idx, 2)).collect()).collect();
+                    let mut co = vec![vec![0i64; ni]; ni];
+                    for a in 0..ni { for b in 0..ni { if a != b { co[a][b] = digit(&mut idx, 3) as i64; } } }
+                    let st: Vec<i64> = (0..ni).map(|_| digit(&mut idx, 2) as i64).collect();
+                    (dem, co, st)
+                } else {
+                    let dem: Vec<Vec<u64>> = (0..ni).map(|_| { let dl = digit(&mut idx, t as u64) as usize; (0..t).map(|p| if p == dl { 1 } else { 0 }).collect() }).collect();
+                    let mut co = vec![vec![0i64; ni]; ni];
+                    for a in 0..ni { for b in 0..ni { if a != b { co[a][b] = digit(&mut idx, 2) as i64; } } }
+                    (dem, co, vec![0; ni])
+                };
                 let total: u64 = dem.iter().map(|r| r.iter().sum::<u64>()).sum();
                 // brute force: every period produces one item or nothing
                 let mut best: Option<i64> = None;
